@@ -542,9 +542,9 @@ def run(ctx):
         k = {"fewer": rng.randrange(1, objN), "more": objN + rng.randrange(1, 4), "equal": objN}[rel]
         T = rng.choice([1, 2, 3, 5, 8, 10])            # (the object's own data have 8 samples)
         an = nprng.randint(-8, 9, size=(T, k)) / 4.0 * 2.0 ** rng.choice([0, 0, -30, 30])
-        how = ["csm", "mi", "csm", "mi", "worker", "mi-dump"][c % 6]
+        how = ["csm", "mi", "worker", "mi-dump", "csm", "mi"][(c // 4) % 6]
         nb = rng.choice([1, 2, 5, 32, 64]) if how == "worker" else 32
-        cls = f"object-has-{rel}-nodes:{how}"
+        cls = f"anomaly-has-{rel}-columns-than-object-nodes:{how}"
         add_api("mi_obj", mi_model_request(an, nb, objN), [variant(an, fdt())], [objN, how, nb], cls,
                 (objN, T, k, how, nb, an.tobytes().hex()), True,
                 {"entry": "MutualInfoClimateNetwork(<%d nodes>).%s(anomaly %dx%d)" % (
@@ -558,7 +558,7 @@ def run(ctx):
             an2 = dyadic(nprng, (m, T2), -1.0, 1, hit_ends=False)
             add_api("spearman_obj", f"call spearman {ms[0]} {ms[1]} {m} {T2}",
                     [variant(mask, "bool"), variant(an2, fdt())], [objN],
-                    f"object-has-{rel}-nodes:" + ("same-shape" if ms == (m, T2) else "mask-shape-differs"),
+                    f"anomaly-has-{rel}-rows-than-object-nodes:" + ("same-shape" if ms == (m, T2) else "mask-shape-differs"),
                     (objN, ms, m, T2))
         if c % 4 == 1:
             s1 = (rng.randrange(1, 5), rng.randrange(1, 6))
@@ -673,7 +673,10 @@ def run(ctx):
     # T4: typed-buffer kernels at their own boundary (shapes at, above and below what the loops need)
     preqs, pmodel = pyx_kernel_requests(ctx, rng, quick)
 
-    allreqs = areqs + kreqs + oreqs + preqs
+    # T5: the nine wrappers of `_line_dist` at their own boundary (exact outcome)
+    lreqs5, lmodel5 = line_dist_requests(ctx, rng, nprng, quick)
+
+    allreqs = areqs + kreqs + oreqs + preqs + lreqs5
     nchunk = 4
     chunks = [allreqs[i::nchunk] for i in range(nchunk)]
     kcalls = []
@@ -692,7 +695,7 @@ def run(ctx):
             cls = "-"
             if q["id"].startswith("a"):
                 cls = ameta[int(q["id"][1:])][1]
-            elif q["id"].startswith("o") or q["id"].startswith("p"):
+            elif q["id"].startswith("o") or q["id"].startswith("p") or q["id"].startswith("l"):
                 cls = q.get("cls", "-")
                 if q["id"].startswith("p"):
                     cls = q["key"] + ":" + cls
@@ -745,6 +748,17 @@ def run(ctx):
         ctx.count(f"kernel-boundary:{m}:{o.split(':')[-1] if o.startswith('raise') else 'returned'}")
     ctx.correspond("typed-buffer kernels: IndexError / normal return == prediction from the generated "
                    "site lists", pmodel, pimpl)
+
+    limpl = []
+    for q in lreqs5:
+        r = ares[q["id"]]
+        o = r["outcome"]
+        limpl.append("oob" if r["reports"] or o == "crash" else
+                     "raise" if o == "raise:IndexError" else (o[3:] if o.startswith("ok:") else o))
+        ctx.count("line-dist-outcome:" + ("IndexError" if o == "raise:IndexError" else
+                                          "histogram" if o.startswith("ok:") else o))
+    ctx.correspond("_line_dist wrappers: IndexError / histogram == Lean subscript model (generated loop "
+                   "skeleton and index functions)", lmodel5, limpl)
 
     # kernel calls observed under the public API: do they satisfy the contracts the theorems assume?
     table = json.load(open(KTABLE)) if os.path.exists(KTABLE) else {}
@@ -823,6 +837,61 @@ def pyx_kernel_requests(ctx, rng, quick):
             ctx.case(("pyx_kernel", key, json.dumps(kv, sort_keys=True)), True,
                      {"kernel": key, "mode": mode, "values": kv} if len(reqs) % 17 == 0 else None)
             ctx.count(f"kernel-boundary-shapes:{mode}")
+    return reqs, model
+
+
+LD_WRAPPERS = ["_vertline_dist", "_diagline_dist", "_white_vertline_dist", "_vertline_dist_sequential",
+               "_diagline_dist_sequential", "_vertline_dist_missingvalues", "_diagline_dist_missingvalues",
+               "_vertline_dist_sequential_missingvalues", "_diagline_dist_sequential_missingvalues"]
+
+
+def line_dist_requests(ctx, rng, nprng, quick):
+    """buffers exactly as `recurrence_plot.py` passes them, larger, one short on one axis, and
+    `n_time` beyond the buffers; contents: 0/1 (and 2) recurrence matrices with long lines, integer
+    embeddings with a half-integer threshold (exact distances), missing-value masks"""
+    reqs, model = [], []
+    for c in range(90 if quick else 700):
+        name = LD_WRAPPERS[c % 9] if c < 45 else rng.choice(LD_WRAPPERS)
+        seq, mv = "sequential" in name, "missingvalues" in name
+        n = rng.choice([0, 1, 2, 3, 3, 4, 5, 6, 8])
+        mode = rng.choice(["fit", "fit", "big", "hist-short", "rows-short", "cols-short", "mask-short",
+                           "n_time-larger"])
+        nt = n + (rng.randrange(1, 3) if mode == "n_time-larger" else 0)
+        h0 = max(0, n - 1) if mode == "hist-short" else n + (2 if mode == "big" else 0)
+        a0 = max(0, n - 1) if mode == "rows-short" else n + (1 if mode == "big" else 0)
+        m0 = max(0, n - 1) if mode == "mask-short" else n
+        dim = rng.choice([1, 1, 2, 3, 0]) if seq else 0
+        a1 = (dim if seq else n)
+        if mode == "cols-short":
+            a1 = max(0, a1 - 1)
+        elif mode == "big":
+            a1 += 1
+        dens = rng.choice([0.0, 0.3, 0.7, 0.9, 1.0])
+        if seq:
+            arr2 = nprng.randint(0, 3, size=(a0, a1)).astype(float)
+            eps2 = rng.choice([1, 3, 5, 0])
+            a2 = A(arr2, "float64")
+            rm, em, r0, r1, e0, e1 = "-", enc_imat(arr2.astype(int)) if a1 else "-", 1, 0, a0, a1
+        else:
+            arr2 = (nprng.rand(a0, a1) < dens).astype(np.int8)
+            if rng.random() < 0.15 and arr2.size:
+                arr2.flat[rng.randrange(arr2.size)] = 2        # neither black nor white
+            if rng.random() < 0.3:
+                arr2 = np.maximum(arr2, arr2.T) if a0 == a1 else arr2
+            eps2 = 0
+            a2 = A(arr2, "int8")
+            rm, em, r0, r1, e0, e1 = enc_imat(arr2) if a1 else "-", "-", a0, a1, 1, 0
+        mask = (nprng.rand(m0) < rng.choice([0.0, 0.2, 0.5])).astype(np.int8)
+        arrays = [A(np.zeros(h0), "int32"), a2] + ([A(mask, "bool")] if mv else [])
+        rid = f"l{len(reqs)}"
+        reqs.append({"id": rid, "fn": "linedist", "arrays": arrays, "args": [name, nt, eps2 / 2.0, dim],
+                     "cls": f"{name}:{mode}"})
+        model.append(f"linedist {name} {nt} {dim} {r0} {r1} {m0 if mv else 0} {e0} {e1} {h0} {rm} {em} "
+                     f"{eps2} {','.join(str(int(v)) for v in mask) if (mv and m0) else '-'}")
+        ctx.case(("linedist", name, nt, dim, h0, arr2.shape, arr2.tobytes().hex(), mask.tobytes().hex(),
+                  eps2), n > 1, {"kernel": name, "n_time": nt, "mode": mode, "hist": h0,
+                                 "array": list(arr2.shape)} if c % 23 == 0 else None)
+        ctx.count(f"line-dist:{'seq' if seq else 'matrix'}{'+mv' if mv else ''}:{mode}")
     return reqs, model
 
 
@@ -1038,6 +1107,19 @@ def oracle_stream(ctx, rng, nprng, quick):
         add("visibility", arrs, [], "visibility:" + cls, kw=kw)
     if not quick:
         sweep_stream(lambda *a, **k: add(*a, timeout=30, **k), rng, nprng)
+    else:
+        # a few RQA objects also in the quick tier, so that the calls of the `_line_dist` wrappers made
+        # by recurrence_plot.py are recorded and tested against their contracts on every run
+        for k in range(6):
+            n = rng.choice([2, 3, 5, 8])
+            ts = nprng.randint(0, 4, size=(n, rng.choice([1, 2]))).astype(float)
+            kw = {"metric": "supremum", "threshold": 0.5}
+            if k % 2:
+                kw["sparse_rqa"] = True
+            if k % 3 == 0:
+                kw["missing_values"] = True
+                ts[nprng.rand(*ts.shape) < 0.2] = np.nan
+            add("sweep", [A(ts, "float64")], [1], "rp:quick", kind="rp", kw=kw, timeout=30)
     return reqs
 
 
